@@ -1,6 +1,10 @@
 package vc
 
-import "go/types"
+import (
+	"go/types"
+
+	"golang.org/x/tools/go/ssa"
+)
 
 func (vc *VC) byteKind() string { return vc.tt.kind(types.Typ[types.Uint8]) }
 
@@ -62,4 +66,36 @@ func (m modLoc) condOrTrue() Term {
 		return True
 	}
 	return m.cond
+}
+
+// isLeaf: a function with a body, no loops, no calls (other than len/cap-style builtins),
+// no defers and no free variables.  Inlining it is exact and cannot recurse.
+func isLeaf(fn *ssa.Function) bool {
+	if len(fn.Blocks) == 0 || len(fn.Blocks) > 8 || len(fn.FreeVars) > 0 {
+		return false
+	}
+	for _, b := range fn.Blocks {
+		for _, s := range b.Succs {
+			if s.Index <= b.Index {
+				return false // back edge
+			}
+		}
+		for _, in := range b.Instrs {
+			switch x := in.(type) {
+			case *ssa.Call:
+				bi, ok := x.Common().Value.(*ssa.Builtin)
+				if !ok {
+					return false
+				}
+				switch bi.Name() {
+				case "len", "cap":
+				default:
+					return false
+				}
+			case *ssa.Defer, *ssa.Go, *ssa.Panic, *ssa.Select, *ssa.Send, *ssa.MakeClosure, *ssa.RunDefers:
+				return false
+			}
+		}
+	}
+	return true
 }
